@@ -13,7 +13,7 @@ MANIFEST = {
     "note": "Trusted: Lean kernel + bv_decide certificate axioms; Spec/Offset.lean as the meaning of a displacement field; gen_formats.py; "
             "the harness/driver diff. Thumb/A32 formats are modelled, not proved (no compiled backend uses them).",
 }
-MODS = ["AsmjitVerif.Props.C17", "AsmjitVerif.Props.C17A64"]
+MODS = ["AsmjitVerif.Props.C17", "AsmjitVerif.Props.C17A64", "AsmjitVerif.Props.C17Generic"]
 TYPECODE = {"signed": 0, "unsigned": 1, "a64Adr": 2, "a64Adrp": 3}
 M64 = (1 << 64) - 1
 
